@@ -14,7 +14,7 @@
    representatives of every gap class) by at most MaxPerGap choices each; gaps are touched in
    increasing order and only the last touched gap grows, so every layout is generated once.
    Mode "sim" (tlc -simulate): walks the gaps left to right and replaces each with probability
-   Density% by one or two random choices -- many gaps at once.                               *)
+   Density% by one or (40%) two random choices -- many gaps at once.                               *)
 EXTENDS Layout, LayoutSkel, Json
 CONSTANTS SkelIds, Mode, MaxGaps, MaxPerGap, AllowedMode, Choices, Density, Full
 VARIABLES sk, cls, base, allowed, layout, cursor
@@ -24,7 +24,9 @@ View == <<sk.id, layout, cursor>>
 Init == /\ \E id \in SkelIds : sk = Skel(id)
         /\ cls = Classes(sk)
         /\ base = Base(sk)
-        /\ allowed = IF AllowedMode = "all" THEN 0..NGaps(sk) ELSE Reps(cls)
+        /\ allowed = CASE AllowedMode = "all"  -> 0..NGaps(sk)
+                       [] AllowedMode = "reps" -> Reps(cls)      \* first, second and last gap of every class
+                       [] OTHER                -> Firsts(cls)    \* "first": one gap per class
         /\ layout = <<>> /\ cursor = 0
 
 LastGap == layout[Len(layout)][1]
@@ -42,16 +44,18 @@ BfsNext ==
                               /\ layout' = [layout EXCEPT ![Len(layout)][2] = Append(@, c)]
   /\ UNCHANGED <<sk, cls, base, allowed, cursor>>
 
+(* one random successor per step (the random draws are bound by singleton quantifiers so that each
+   is evaluated once) *)
 SimNext ==
   /\ cursor <= NGaps(sk) + 1
   /\ cursor' = cursor + 1
   /\ IF cursor > NGaps(sk) \/ RandomElement(1..100) > Density
        THEN layout' = layout
-       ELSE \E c1 \in Choices :
-              /\ ChoiceOK(sk, cursor, 1, c1)
-              /\ \/ layout' = Append(layout, <<cursor, <<c1>>>>)
-                 \/ /\ c1 # "LCE"
-                    /\ \E c2 \in Choices : ChoiceOK(sk, cursor, 2, c2) /\ layout' = Append(layout, <<cursor, <<c1, c2>>>>)
+       ELSE \E c1 \in {RandomElement({c \in Choices : ChoiceOK(sk, cursor, 1, c)})} :
+              IF c1 = "LCE" \/ RandomElement(1..100) > 40
+                THEN layout' = Append(layout, <<cursor, <<c1>>>>)
+                ELSE \E c2 \in {RandomElement({c \in Choices : ChoiceOK(sk, cursor, 2, c)})} :
+                       layout' = Append(layout, <<cursor, <<c1, c2>>>>)
   /\ UNCHANGED <<sk, cls, base, allowed>>
 
 Next == IF Mode = "sim" THEN SimNext ELSE BfsNext
